@@ -1,0 +1,24 @@
+//go:build verif
+// +build verif
+
+// Access to the header verifier's vote check for the verification harness under /verif (C03, BLS stage):
+// Server.verifyVotes is what verifyConsensusFieldMain runs on header.Validator (precommits) and on
+// header.Certificate (certificate votes).  Compiled only with -tags verif; add-only.
+
+package ucon
+
+import (
+	"math/big"
+
+	"github.com/youchainhq/go-youchain/common"
+	"github.com/youchainhq/go-youchain/core/state"
+	"github.com/youchainhq/go-youchain/params"
+)
+
+// VerifVerifyVotes runs the verifier's vote check (sortition of every vote, weight against the quorum of
+// `threshold`, aggregated BLS signature over headerHash|round|roundIndex) on a packed vote set.
+func (s *Server) VerifVerifyVotes(cp *params.CaravelParams, lbVld state.ValidatorReader, headerHash common.Hash, seed common.Hash,
+	round *big.Int, roundIndex uint32, threshold uint64, votes []SingleVote, asig []byte, step uint32, isPos bool) error {
+	cd := &commonData{cp: cp, lbVld: lbVld, headerHash: headerHash.Bytes(), seed: seed, round: round, roundIndex: roundIndex, validatorThreshold: threshold}
+	return s.verifyVotes(cd, votes, asig, step, params.KindChamber, isPos)
+}
